@@ -13,6 +13,8 @@ claimed = {
          "Completeness over the whole scope chain ('every visible local is offered') is argued from the map-range loop visiting every key (Go semantics) and is not a discharged obligation; prefix filter (IsCompleteNeedShow), globals, members and keywords are outside.", "5.C14"),
  "C19": ("Outline of locals (FindAllLocalVal): every produced variable symbol's range starts exactly where the declaration starts (so it contains the declaring identifier; the loop that extends the range to the last member may only move the end), plain variables carry the declaration's own range, and a scope that declares nothing still descends into its nested blocks (ghost call-site counter over the map-built work list, with map-size facts).",
          "Covers the local-symbol builder only; the global builder (results/file_result.go, repaired by the same fix), transferSymbolVec, the workspace-symbol matcher and 'every declaration is listed' in general are not under contract. The descent obligation is proved for the case of a scope without own locals.", "5.C19"),
+ "C20": ("Pattern checks as site guards: at every InsertError call in cgAssignStat and cgBinopExp (whatever their number or order) a report of type 20/7/14/15/16/21 is proved to be made only when the documented pattern holds (self-assignment: every target/value pair syntactically equal, by a loop invariant over the pair scan; or-true / and-false / float-equality / same-operands: operator and operand shapes), and no other type is reported there. The AST is proved immutable outside the parser by a scan of every store in the module, which is what lets facts about a node survive the recursive traversal calls.",
+         "'Nowhere else' direction only (a report implies the pattern); that every pattern occurrence is reported (traversal coverage, first-term/real-time gating) is not decided. CompExp / GetExpName are modelled as functions of their arguments (AST immutable); their own definitions (structural equality, name rendering) are not yet under contract. Types 5, 8, 13, 19 not yet covered.", "5.C20"),
  "C09": ("The three places where results gathered in map-iteration / goroutine-completion order are reduced to one answer are proved to use a strict total order: JudgeShouldInsertGlobalInfo is proved equal (loop invariant, all list lengths) to 'new beats every recorded definition of another file' for the lexicographic rank (function level, scope level, line, file), and the two sort.Interface Less methods (require candidates, workspace symbols) equal to lexicographic orders ending in a unique key; totality+antisymmetry and transitivity of each order are proved as lemmas. With a total order the surviving/first element is the unique minimum for every arrival order.",
          "No scheduling semantics: worker pools, GOMAXPROCS and directory listing order are outside; sort.Sort is assumed to return a permutation sorted w.r.t. Less; the final step (unique minimum => order independence) is a paper argument; other map-order leaks are not enumerated. Strings are compared through an order embedding strord (sound for the finitely many strings of a query).", "5.C09"),
  "C10": ("Lock discipline proved for every method of LspServer: each access to the guarded server state (document cache, diagnostics maps, project, colorTime, changeConfFlag) happens with requestMutex held; helpers that touch the state are only called with it held (call-graph fixpoint, checked at each call site); no handler re-acquires the mutex (self-deadlock); the mutex state at every exit equals the state at entry. Whole-handler mutual exclusion gives atomicity, hence serialisability in lock-acquisition order.",
